@@ -274,6 +274,11 @@ def oracle(case, out):
     # a snapshot that differs in it does not resume like the original
     va["live"], v1["live"] = out["at"].get("live"), out["snap1_at"].get("live")
     ignore = ("msg", "maxiter", "maxfun") if a == "savefreq" else ("msg",)
+    if a == "savefreq" and va["live"] is False:
+        # the periodic dump is written inside the iteration; a Finalize that the same Step performed afterwards (a termination condition that held
+        # for a moment - e.g. a collapse detected before Powell's pending record was flushed - without a stop being reported) is not in it:
+        # what matters is that both continue alike, which the tail comparison below decides
+        ignore += ("live",)
     if {k: v for k, v in va.items() if k not in ignore} != {k: v for k, v in v1.items() if k not in ignore}:
         diff = [k for k in va if k not in ignore and va[k] != v1[k]]
         f.append(SC.fail("snapshot_equals_original", site, "restored-state-differs:" + a, dict(fields=diff)))
